@@ -22,7 +22,7 @@ func usage() {
 		ids = append(ids, id)
 	}
 	sort.Strings(ids)
-	fmt.Fprintf(os.Stderr, "usage: vc check <id> [quick|thorough]\nchecks: %v\n", ids)
+	fmt.Fprintf(os.Stderr, "usage: vc check <id> [quick|thorough] | vc replay <replay-file>\nchecks: %v\n", ids)
 	os.Exit(2)
 }
 
@@ -31,9 +31,18 @@ func main() {
 		checks.Debug17()
 		return
 	}
+	if len(os.Args) >= 3 && os.Args[1] == "dbg08" {
+		var i int
+		fmt.Sscan(os.Args[2], &i)
+		checks.Debug08(i)
+		return
+	}
 	if len(os.Args) >= 2 && os.Args[1] == "smoke" {
 		checks.Smoke()
 		return
+	}
+	if len(os.Args) >= 3 && os.Args[1] == "replay" {
+		os.Exit(checks.Replay(os.Args[2]))
 	}
 	if len(os.Args) < 3 || os.Args[1] != "check" {
 		usage()
@@ -41,9 +50,8 @@ func main() {
 	id := os.Args[2]
 	tier := "quick"
 	if len(os.Args) > 3 {
-		tier = os.Args[3]
-	}
-	if t := os.Getenv("VERIF_TIER"); t == "quick" || t == "thorough" {
+		tier = os.Args[3] // an explicit tier on the command line wins
+	} else if t := os.Getenv("VERIF_TIER"); t == "quick" || t == "thorough" {
 		tier = t
 	}
 	c, ok := checks.Registry[id]
